@@ -89,6 +89,32 @@ def atoms_at(fn, node):
     return [atom(fn, c) for c in fn.conds_at(node)]
 
 
+def atoms_expanded(prog, fn, node):
+    """atoms_at with calls of crate predicates (`fn p(..) -> bool { a && b }`) that hold on the path
+    replaced by the atoms of their conjuncts (a negated predicate is only opened when it is a single test)"""
+    from .prov import return_exprs
+
+    def conjuncts(e):
+        e = hir.peel(e)
+        if e.get("k") == "Binary" and e["op"] == "And":
+            return conjuncts(e["l"]) + conjuncts(e["r"])
+        return [e]
+
+    out = []
+    for a in atoms_at(fn, node):
+        if a[0] == "call":
+            h = prog.resolve_local(a[5]) if isinstance(a[5], dict) else None
+            if h is not None and h.body is not None and h.rec.get("ret") == "bool" and not h.rec.get("gen"):
+                rs = return_exprs(h.body)
+                if len(rs) == 1:
+                    cs = conjuncts(rs[0])
+                    if a[4] is True or len(cs) == 1:
+                        out.extend(atom(h, {"t": "bool", "e": c, "v": a[4]}) for c in cs)
+                        continue
+        out.append(a)
+    return out
+
+
 def has_call_gate(atoms, name, value=True, first_endswith=None):
     for a in atoms:
         if a[0] == "call" and a[1] == name and a[4] == value:
